@@ -122,7 +122,18 @@ PROPERTIES["C01"] = {"run": _sched(_mon("C01")), "assumptions": SCHED_ASSUME}
 PROPERTIES["C02"] = {"run": _sched(_mon("C02")), "assumptions": SCHED_ASSUME + ["the liveness half (every demanded step is executed) is not a theorem yet: monitor + correspondence only"]}
 PROPERTIES["C05"] = {"run": _sched(_mon("C05"), extra=_replay_d7("C05")), "assumptions": SCHED_ASSUME + ["deadlock freedom and termination are not theorems yet: monitor + correspondence only"]}
 PROPERTIES["C07"] = {"run": _sched(_mon("C07")), "assumptions": SCHED_ASSUME + ["the run form of the promise is decided by the taint monitor, not by a theorem"]}
-PROPERTIES["C09"] = {"run": _sched(_mon("C09")), "assumptions": SCHED_ASSUME}
+def _c09_loops(o, driver, rng):
+    """Dedicated loop scenarios: loops of length around the bound, nested groups, several bound values."""
+    import sched_corr as scorr
+    n_sc, n_sched = (120, 2) if o.tier == "quick" else (3000, 4)
+    scs = [scorr.gen_loop_scenario(rng) for _ in range(n_sc)]
+    res = scorr.run_sched_suite(driver, rng, n_sc, n_sched, name="loops", monitor=_mon("C09"), scenarios=scs)
+    o.suites.append(res)
+    o.violations.extend(res["violations"])
+    o.monitor_stats["loop_traces_monitored"] = res["traces"]
+
+
+PROPERTIES["C09"] = {"run": _sched(_mon("C09"), extra=_c09_loops), "assumptions": SCHED_ASSUME}
 PROPERTIES["C10"] = {"run": _sched(_mon("C10")), "assumptions": SCHED_ASSUME}
 PROPERTIES["C13"] = {"run": _sched(_mon("C13"), faults=True), "assumptions": SCHED_ASSUME}
 
@@ -190,3 +201,63 @@ def _c16_monitor(sc, c, outcome):
 PROPERTIES["C16"] = {"run": _sched(_c16_monitor, async_req=True), "assumptions": SCHED_ASSUME + [
     "the data path of an asynchronous get_data (cache lookup / direct query of the source) is not modelled, only its admission check",
     "no ordinary connection feeds the same (source entity, destination entity, attribute) key as a set_data call"]}
+
+
+def _c17_monitor(sc, c, outcome):
+    import monitors_sched as ms
+    return ms.mon_c17(sc, c, outcome)
+
+
+def _c17_extra(o, driver, rng):
+    """Non-real-time scenarios with set_event (must be an error), the strict/non-strict pair, and the D13 witness."""
+    import common, sched_corr as scorr, monitors_sched as ms
+    # set_event outside real-time mode
+    res = None
+    for k in range(40 if o.tier == "quick" else 400):
+        sc = scorr.gen_scenario(rng)
+        n = len(sc["sims"])
+        sc["extra_async"] = [{"sim": rng.randrange(n), "n": rng.randrange(0, 2), "kind": "set_event", "time": rng.randrange(1, 6)}]
+        seed = rng.randrange(10 ** 9)
+        if driver is not None:
+            agree, detail, c = scorr.compare(driver, sc, seed)
+            if not agree:
+                o.suites[-1]["disagreements"].append({"suite": "sched", "scenario": sc, "schedule_seed": seed, **detail})
+            outcome = getattr(c, "outcome", detail.get("outcome"))
+        else:
+            outcome, c = scorr.run_impl(sc, seed)
+        o.suites[-1]["cases"] += 1
+        for v in ms.mon_c17(sc, c, str(outcome)):
+            o.violations.append({**v, "scenario": sc, "schedule_seed": seed})
+    # rt_strict changes nothing but the first report
+    for k in range(30 if o.tier == "quick" else 300):
+        sc = scorr.gen_scenario(rng, rt=True)
+        sc["rt_strict"] = False
+        seed = rng.randrange(10 ** 9)
+        out1, c1 = scorr.run_impl(sc, seed)
+        sc2 = dict(sc, rt_strict=True)
+        out2, c2 = scorr.run_impl(sc2, seed)
+        tr1 = [e[:5] for e in c1.full_trace if e[0] == "begin"]
+        tr2 = [e[:5] for e in c2.full_trace if e[0] == "begin"]
+        warned = any(e[0] == "rtwarn" for e in c1.full_trace)
+        o.monitor_stats["strict_pairs"] = o.monitor_stats.get("strict_pairs", 0) + 1
+        if not warned and (out1 != out2 or tr1 != tr2):
+            o.violations.append({"law": "rt_strict changes nothing when the run is never too slow", "scenario": sc, "schedule_seed": seed, "outcomes": [out1, out2]})
+        if warned and not out2.startswith("failed RuntimeError too-slow") and not out1.startswith("failed"):
+            o.violations.append({"law": "rt_strict turns the first too-slow report into a RuntimeError", "scenario": sc, "schedule_seed": seed, "outcomes": [out1, out2]})
+        if warned and tr2 != tr1[:len(tr2)]:
+            o.violations.append({"law": "up to the first too-slow report a strict run equals the non-strict one", "scenario": sc, "schedule_seed": seed})
+    for f in common.known_findings()["findings"]:
+        if f["property"] == "C17":
+            w = f["witness"]
+            sc = scorr.normalise(w["scenario"])
+            outcome, c = scorr.run_impl(sc, w["schedule_seed"])
+            o.monitor_stats["known_finding_replays"] = o.monitor_stats.get("known_finding_replays", 0) + 1
+            v = [x for x in ms.mon_c17(sc, c, outcome) if x.get("finding") == f["id"]]
+            if v:
+                o.violations.append({**v[0], "scenario": w["scenario"], "schedule_seed": w["schedule_seed"]})
+
+
+PROPERTIES["C17"] = {"run": _sched(_c17_monitor, extra=_c17_extra, rt=True), "assumptions": [
+    "time is an integer number of clock ticks: rt_factor*time_resolution is a whole number of ticks and the virtual clock only takes the values of timer deadlines; the float arithmetic of perf_counter is not modelled",
+    "real timers are replaced by a virtual clock owned by the controlled event loop (scheduler.perf_counter is patched to it)",
+    "simulators always answer"]}
